@@ -270,7 +270,7 @@ def execute(run, tmpdir):
     log = events.reset()
     run_id = rng.digest(run["steps"])[:24]
     observations = []
-    with SimEnv(tmpdir, run_id) as env:
+    with SimEnv(tmpdir, run_id, run.get("loglevel")) as env:
         for step in run["steps"]:
             try:
                 observations.append(execute_step(env, step))
